@@ -110,6 +110,24 @@ func compareStreams(in []byte, real []drvTok, ref []refTok, ids []string, abs *l
 	return ""
 }
 
+// comparePrefix compares the first tokens of a scan that was cut short.
+func comparePrefix(in []byte, real []drvTok, ref []refTok, ids []string, abs *lexAbs, withPos bool, panicMsg string) string {
+	if panicMsg != "" {
+		return "Scan panicked: " + panicMsg
+	}
+	for i, rt := range ref {
+		if i >= len(real) {
+			break
+		}
+		t := real[i]
+		want := in[rt.Off:rt.EndOff]
+		if tokName(t, ids) != refName(rt, abs) || !bytes.Equal(t.Lit, want) || t.Off != rt.Off || withPos && (t.Line != rt.Line || t.Col != rt.Col) {
+			return fmt.Sprintf("token %d before the Reset: real %s %q at %d:%d:%d, reference %s %q at %d:%d:%d", i, tokName(t, ids), t.Lit, t.Off, t.Line, t.Col, refName(rt, abs), want, rt.Off, rt.Line, rt.Col)
+		}
+	}
+	return ""
+}
+
 // ---------------------------------------------------------------------------------------
 // replay of a lexer finding: grammar text + abstract grammar + atoms + input bytes
 
@@ -145,6 +163,7 @@ func replayLex(c *Ctx, r *Replay) (bool, string) {
 		Flags   []string `json:"flags"`
 		Resets  int      `json:"resets"`
 		Pos     bool     `json:"pos"`
+		Partial int      `json:"partial"`
 	}
 	b, _ := json.Marshal(r.Data)
 	if err := json.Unmarshal(b, &d); err != nil {
@@ -177,12 +196,23 @@ func replayLex(c *Ctx, r *Replay) (bool, string) {
 	}
 	res, _ := drv.Run([]lexOp{
 		{Op: "dump", G: "g000", Probes: [][]rune{{0}}, NIds: len(names) + 4, Names: names},
-		{Op: "scan", G: "g000", Inputs: [][]byte{in}, Resets: d.Resets, Extra: 2},
+		{Op: "scan", G: "g000", Inputs: [][]byte{in}, Resets: d.Resets, Extra: 2, Partial: d.Partial},
 	})
 	ids := res[0].TokId
 	ref := c.lexRefEval([]refIn{{Abs: d.Abs, Srcs: [][]srcRune{g.srcRunes(in)}}})[0][0]
 	for k, round := range res[1].Scans[0] {
-		if msg := compareStreams(in, round, ref, ids, &d.Abs, d.Pos, res[1].Panics[0]); msg != "" {
+		r := ref
+		if k == 0 && d.Partial > 0 {
+			// only the first tokens were scanned before the Reset: compare that prefix
+			if len(round) < len(ref) {
+				r = ref[:len(round)]
+			}
+			if msg := comparePrefix(in, round, r, ids, &d.Abs, d.Pos, res[1].Panics[0]); msg != "" {
+				return true, msg + "; real tokens: " + describeToks(round, ids)
+			}
+			continue
+		}
+		if msg := compareStreams(in, round, r, ids, &d.Abs, d.Pos, res[1].Panics[0]); msg != "" {
 			if k > 0 {
 				msg = fmt.Sprintf("after Reset #%d: %s", k, msg)
 			}
